@@ -1,4 +1,5 @@
 import GapicModel.Model.Emit
+import GapicModel.Model.NamingOptions
 /-
 C11 — the emitted file set is well-formed and placed by package-derived naming.
 Theorems about the segment-wise model of `_get_filename` / `_render_template`, instantiated on the
@@ -233,5 +234,75 @@ example : CleanCtx ⟨⟨[['a', 'c', 'm', 'e'], ['c', 'l', 'o', 'u', 'd']], ['l'
 example : getFilename ⟨⟨[['a', 'c', 'm', 'e']], ['l', 'i', 'b'], ['v', '1'], ['l', 'i', 'b', '_', 'v', '1']⟩, [], some ['l', 'i', 'b', 'r', 'a', 'r', 'y'], none⟩
     (parseTemplate ['%', 'n', 'a', 'm', 'e', 's', 'p', 'a', 'c', 'e', '/', '%', 'n', 'a', 'm', 'e', '_', '%', 'v', 'e', 'r', 's', 'i', 'o', 'n', '/', '%', 's', 'u', 'b', '/', 's', 'e', 'r', 'v', 'i', 'c', 'e', 's', '/', '%', 's', 'e', 'r', 'v', 'i', 'c', 'e', '/', 't', 'r', 'a', 'n', 's', 'p', 'o', 'r', 't', 's', '/', 'g', 'r', 'p', 'c', '.', 'p', 'y', '.', 'j', '2'])
     = [['a', 'c', 'm', 'e'], ['l', 'i', 'b', '_', 'v', '1'], ['s', 'e', 'r', 'v', 'i', 'c', 'e', 's'], ['l', 'i', 'b', 'r', 'a', 'r', 'y'], ['t', 'r', 'a', 'n', 's', 'p', 'o', 'r', 't', 's'], ['g', 'r', 'p', 'c', '.', 'p', 'y']] := by decide
+
+
+/-! ## Options are parsed permissively; package root derived from the proto package -/
+
+section OptionsNaming
+open GapicModel.Model.NamingOptions
+
+theorem splitOn_ne_nil (sep : Char) (a : List Char) : splitOn sep a ≠ [] := by
+  cases a with
+  | nil => simp [splitOn]
+  | cons c cs =>
+    simp only [splitOn]
+    split
+    · simp
+    · split <;> simp
+
+theorem splitOn_append (sep : Char) (a b : List Char) :
+    splitOn sep (a ++ sep :: b) = splitOn sep a ++ splitOn sep b := by
+  induction a with
+  | nil =>
+    simp only [List.nil_append, splitOn]
+    cases h : splitOn sep b with
+    | nil => exact absurd h (splitOn_ne_nil sep b)
+    | cons x xs => simp
+  | cons c a ih =>
+    simp only [List.cons_append, splitOn, ih]
+    cases ha : splitOn sep a with
+    | nil => exact absurd ha (splitOn_ne_nil sep a)
+    | cons x xs =>
+      simp only [List.cons_append]
+      split <;> rfl
+
+/-- **Unknown options are ignored**: appending `,<opt>` to the parameter string leaves what `Options.build`
+reads unchanged whenever the option's key (the text before the first `=`, blanks stripped) is neither a
+known flag nor carries the `python-gapic-` prefix.  Any option string, any value (including values with
+further `=` signs, see the `fix:` commit 3b10480). -/
+theorem unknown_options_ignored (flags : List (List Char)) (s opt : List Char)
+    (hflag : flags.contains (keyValue (strip opt)).1 = false)
+    (hpre : prefixGapic.isPrefixOf (keyValue (strip opt)).1 = false)
+    (hcomma : ',' ∉ opt) :
+    parseOpts flags (s ++ ',' :: opt) = parseOpts flags s := by
+  unfold parseOpts
+  rw [splitOn_append, List.flatMap_append]
+  have hone : splitOn ',' opt = [opt] := by
+    clear hflag hpre
+    induction opt with
+    | nil => rfl
+    | cons c cs ih =>
+      have hc : c ≠ ',' := by intro h; apply hcomma; simp [h]
+      have hcs : ',' ∉ cs := by intro h; apply hcomma; simp [h]
+      simp [splitOn, ih hcs, hc]
+  rw [hone]
+  have hflag' : (keyValue (strip opt)).1 ∉ flags := by
+    intro h; simp at hflag; exact hflag h
+  simp [contributes, hflag', hpre]
+
+/-- known flags and prefixed options ARE read (so the theorem above is not vacuous about the parser) -/
+example : parseOpts [['m','e','t','a','d','a','t','a'], ['t','r','a','n','s','p','o','r','t']]
+    "transport=grpc+rest, metadata,zzz=1,foo=a=b,python-gapic-name=x_y".toList
+    = [("transport".toList, "grpc+rest".toList), ("metadata".toList, "true".toList), ("name".toList, "x_y".toList)] := by decide
+
+/-- naming inference on concrete packages, evaluated by the regex engine on the pinned patterns -/
+theorem naming_examples :
+    infer "acme.cloud.lib.v1".toList = some ⟨"acme.cloud".toList, "lib".toList, "v1".toList⟩ ∧
+    infer "lib.v1p1beta1".toList = some ⟨[], "lib".toList, "v1p1beta1".toList⟩ ∧
+    infer "acme.lib".toList = some ⟨"acme".toList, "lib".toList, []⟩ ∧
+    versionedModule ⟨"acme".toList, "lib".toList, "v1beta1".toList⟩ = "lib_v1beta1".toList ∧
+    versionedModule ⟨"acme".toList, "lib".toList, []⟩ = "lib".toList := by decide
+
+end OptionsNaming
 
 end GapicModel.Props.C11
